@@ -3,7 +3,7 @@ import common, sim, proto
 from common import run_model, exn_name
 
 RULE = ('fault origins {early listener, ordinary listener, built-in reaction (login disconnect), decoder (malformed frame), exit '
-        'callback} x handler chains of 0..4 handlers (random exception-type filters from a class hierarchy, early registration, '
+        'callback, listener on the play disconnect packet (after the connection was told to disconnect), listener that disconnects and then fails} x handler chains of 0..4 handlers (random exception-type filters from a class hierarchy, early registration, '
         'behaviour return / raise a new exception / reconnect) x final handler in {None, False, returning function, raising function}, '
         'through the simulated transport with the real reactors: handler call log with the exception each received, '
         'connection.exception, whether the thread re-raised, socket closure, the thread slot, and a subsequent connect() are compared '
@@ -38,7 +38,7 @@ def run(chk):
     rng, th = chk.rng, chk.tier == 'thorough'
     reqs, metas = [], []
     for cfg in range(2500 if th else 400):
-        origin = rng.choice(['early', 'late', 'reaction', 'decoder', 'exit'])
+        origin = rng.choice(['early', 'late', 'reaction', 'decoder', 'exit', 'after-disconnect', 'self-disconnect'])
         pv = rng.choice([47, 340, 578, 757])
         ids = proto.Ids(pv)
         # the exception objects of this run get numbers; number 100 is the original fault
@@ -50,13 +50,13 @@ def run(chk):
                     return k
             excs[900 + len(excs)] = e
             return 900 + len(excs) - 1
-        fault_cls = rng.choice([E0, E1, E2, E3])
+        fault_cls = rng.choice([E0, E1, E2, E3, OSError, EOFError, ValueError, BrokenPipeError])
         frames = [proto.frame(ids.login_success, ids.b_login_success())]
         if origin == 'reaction':
             frames = [proto.frame(ids.login_disconnect, proto.string('{"text":"go away"}'))]
         elif origin == 'decoder':
             frames.append(proto.frame(ids.keep_alive, b''))               # a keep-alive without its id: the decoder raises
-        elif origin == 'exit':
+        elif origin in ('exit', 'after-disconnect'):
             frames.append(proto.frame(ids.play_disconnect, proto.string('{"text":"bye"}')))
         else:
             frames.append(proto.frame(ids.keep_alive, ids.b_keep_alive(7)))
@@ -84,12 +84,16 @@ def run(chk):
             conn = Connection('localhost', 25565, username='user', allowed_versions={pv},
                               handle_exception={'none': None, 'false': False}.get(fin_mode, final),
                               handle_exit=on_exit if origin == 'exit' else None)
-            if origin in ('early', 'late'):
+            if origin in ('early', 'late', 'after-disconnect', 'self-disconnect'):
                 def boom(p):
+                    if origin == 'self-disconnect':
+                        conn.disconnect(immediate=rng.random() < 0.5)
                     e = fault_cls('listener')
                     excs[100] = e
                     raise e
-                conn.register_packet_listener(boom, cb.play.KeepAlivePacket, early=(origin == 'early'))
+                # 'after-disconnect': an ordinary listener on the play disconnect packet runs after the built-in reaction has
+                # already told the connection to disconnect; 'self-disconnect': the listener disconnects, then fails
+                conn.register_packet_listener(boom, cb.play.DisconnectPacket if origin == 'after-disconnect' else cb.play.KeepAlivePacket, early=(origin == 'early'))
             handlers = []
             order = []
             for i in range(rng.randrange(0, 5)):
